@@ -121,7 +121,9 @@ def xfmt_cases(draw):
                    ang=[draw(st.sampled_from([0.0, 0.0, -5.0, 3.0])), 0.0, 0.0], u=draw(st.sampled_from([1, 1, 1, 0])))
     return dict(net=net, fmt=draw(st.sampled_from(['raw', 'raw', 'm', 'mpc_export'])), cw=draw(st.sampled_from([1, 2, 3])),
                 cz=draw(st.sampled_from([1, 2])), xf3=xf3,
-                nomv=draw(st.sampled_from([None, None, (13.2 / 13.8, 1.05), (1.0, 0.96), (1.04, 1.0)])))
+                nomv=draw(st.sampled_from([None, None, (13.2 / 13.8, 1.05), (1.0, 0.96), (1.04, 1.0)])),
+                load_split=draw(st.sampled_from([None, None, (0.5, 0.25, 0.25), (0.0, 0.0, 1.0), (0.2, 0.8, 0.0)])),
+                vm=draw(st.sampled_from([1.0, 1.0, 0.96, 1.03])))
 
 
 def xfmt_case(ctx, c):
@@ -176,7 +178,9 @@ def xfmt_case(ctx, c):
             nat = net
         ss_nat = build.build_static(nat, rc={'PFlow': dict(report=0, tol=1e-10), 'Bus': dict(flat_start=1)}, permute=False)
         ref_ok, ref_v = solve_loaded(ss_nat)
-        text = rawio.write_raw(net, cw=c['cw'], cz=c['cz'], nomv=c.get('nomv'))
+        text = rawio.write_raw(net, cw=c['cw'], cz=c['cz'], nomv=c.get('nomv'), load_split=c.get('load_split'), vm=c.get('vm', 1.0))
+        if c.get('load_split'):
+            ctx.count('raw:load_given_as_power_current_admittance_parts')
         if c.get('nomv') and c['cw'] == 2:
             ctx.count('raw:cw2_nameplate_voltage')
         net = nat
